@@ -93,6 +93,10 @@ func (sel *Selection) Split(node Node) *Selection {
 	fork.parent = nil
 	fork.Browser = NewBrowser(meta.RootModule(sel.Path.Meta), node)
 	fork.Constraints = &Constraints{}
+	if sel.Browser == nil || !sel.Browser.DisableConstraints {
+		// values written to the other side (UpsertInto and friends) have to fit their types too
+		fork.Constraints.AddConstraint("field", 100, 0, fieldConstraints{})
+	}
 	fork.Node = node
 	return &fork
 }
